@@ -721,7 +721,8 @@ def _c15():
     for k, b, what in [("limiter", (2, 3), "queue -> limiter(1) -> node -> decrementer, three messages"), ("limiter_ext", (1, 2), "same with a second putting thread"),
                        ("limiter_push", (2, 3), "a direct put is in flight inside a slow lightweight successor while the limiter's forward task serves a queued pull-mode predecessor"),
                        ("joinq", (1, 2), "queueing join_node, the two ports fed by two threads"), ("joink", (1, 2), "key_matching join_node, keys arrive in opposite orders"),
-                       ("joinr", (1, 2), "reserving join_node behind two queue_nodes"), ("seq", (1, 2), "sequencer_node fed out of order by two threads")]:
+                       ("joinr", (1, 2), "reserving join_node behind two queue_nodes"), ("seq", (1, 2), "sequencer_node fed out of order by two threads"),
+                       ("wonce", (2, 3), "write_once_node: two threads put the first value at once; one successor before, one after"), ("owrite", (2, 3), "overwrite_node written by two threads at once")]:
         L.append(leg("rt-" + k, "c14_rt", b, {"kind": k}, what="real scheduler: " + what, weight=2.0))
     return L
 PROPS["C15"] = {
@@ -764,3 +765,9 @@ _EXTRA = {
 }
 for _p, _t in _EXTRA.items():
     PROPS[_p]["explanation"] += _t
+
+# the happens-before oracle (-hb) is on for every leg of the container harnesses whose element payload is announced
+for _p, _h in (("C09", "c09_queue"), ("C02", "c09_queue"), ("C13", "c13_pq"), ("C10", "c10_chm")):
+    for _l in PROPS[_p]["legs"]:
+        if _l["harness"] == _h and "-hb" not in _l["flags"] and "-tso" not in _l["flags"] and _l["flags"]:
+            _l["flags"].append("-hb")
